@@ -24,7 +24,8 @@ open VlsModel.Gen.FnSimple (SimpleValidator SimplePolicy)
 /-- the `SimplePolicy` fields read by the translated functions -/
 def toV (p : Policy) : SimpleValidator :=
   { policy := { min_delay := p.minDelay, max_delay := p.maxDelay, use_chain_state := p.useChainState,
-                min_feerate_per_kw := p.minFeerate, max_feerate_per_kw := p.maxFeerate } }
+                min_feerate_per_kw := p.minFeerate, max_feerate_per_kw := p.maxFeerate,
+                epsilon_sat := p.epsilon, dev_flags := none } }
 
 /-- the external of `policy_err!`: does the policy filter keep this tag an error? -/
 def filt (p : Policy) : String → Bool := fun tag => filterEval p.filter tag == .error
